@@ -11,7 +11,7 @@ from typing import Any, Dict, List
 
 from hypothesis import strategies as st
 
-from ..core import CaseResult, Family, Violation
+from ..core import CaseResult, Family, Violation, pick
 from ..engines import memwire
 from ..engines.memwire import Pair, asyncssh
 
@@ -339,7 +339,7 @@ def run_case(case) -> CaseResult:
 
 def strategy(tier: str):
     max_ops = 25 if tier == 'quick' else 60
-    enc = st.sampled_from(ENCODINGS)
+    enc = pick(ENCODINGS)
 
     def sizes(window, pktsize):
         base = [0, 1, 2, 3, 5, pktsize - 1, pktsize, pktsize + 1,
@@ -348,13 +348,13 @@ def strategy(tier: str):
         # cost bound, not a semantic one: at most ~400 packets per write
         cap = min(70000, 400 * min(window, pktsize))
         base = sorted({min(max(b, 0), cap) for b in base})
-        return st.one_of(st.sampled_from(base), st.integers(0, min(cap, 300)))
+        return st.one_of(pick(base), st.integers(0, min(cap, 300)))
 
     @st.composite
     def build(draw):
         senc = draw(enc)
-        srv = {'window': draw(st.sampled_from(WINDOWS)),
-               'pktsize': draw(st.sampled_from(PKTSIZES)), 'encoding': senc}
+        srv = {'window': draw(pick(WINDOWS)),
+               'pktsize': draw(pick(PKTSIZES)), 'encoding': senc}
         nchan = draw(st.integers(1, 3))
         chans = []
 
@@ -362,9 +362,9 @@ def strategy(tier: str):
             if senc == 'utf-16':
                 cenc = 'utf-16'
             else:
-                cenc = draw(st.sampled_from([senc, None, senc]))
-            chans.append({'window': draw(st.sampled_from(WINDOWS)),
-                          'pktsize': draw(st.sampled_from(PKTSIZES)),
+                cenc = draw(pick([senc, None, senc]))
+            chans.append({'window': draw(pick(WINDOWS)),
+                          'pktsize': draw(pick(PKTSIZES)),
                           'encoding': cenc})
 
         chunks = draw(st.one_of(st.just([]), st.just([1]),
@@ -374,17 +374,17 @@ def strategy(tier: str):
 
         def wop(draw):
             c = draw(ci)
-            stream = draw(st.sampled_from(['i', 'o', 'e']))
+            stream = draw(pick(['i', 'o', 'e']))
             rcfg = srv if stream == 'i' else chans[c]
             return ['w', c, stream, draw(sizes(rcfg['window'],
                                                rcfg['pktsize']))]
 
         op = st.one_of(
             st.composite(wop)(), st.composite(wop)(), st.composite(wop)(),
-            st.tuples(st.just('eof'), ci, st.sampled_from(['c', 's']))
+            st.tuples(st.just('eof'), ci, pick(['c', 's']))
             .map(list),
-            st.tuples(st.sampled_from(['pause', 'resume']), ci,
-                      st.sampled_from(['c', 's'])).map(list),
+            st.tuples(pick(['pause', 'resume']), ci,
+                      pick(['c', 's'])).map(list),
             st.tuples(st.just('pump'), st.integers(1, 8)).map(list))
         ops = draw(st.lists(op, min_size=1, max_size=max_ops))
         return {'srv': srv, 'chans': chans, 'chunks': chunks, 'ops': ops}
